@@ -202,7 +202,7 @@ impl Prop for C15 {
         "C15"
     }
     fn phases(&self, tier: Tier) -> Vec<PhaseSpec> {
-        vec![ph("splines: layouts x data kinds", tier.pick(3_000, 150_000))]
+        vec![ph("splines: layouts x data kinds", tier.pick(8_000, 300_000))]
     }
     fn required_classes(&self, _tier: Tier) -> Vec<String> {
         let mut v = vec![];
